@@ -77,6 +77,21 @@ Theorem gather_values_or_first_failure : forall n chron r,
 Proof. exact spec_gather. Qed.
 Print Assumptions gather_values_or_first_failure.
 
+(** cancelling an unfired DeferredList cancels its inputs: afterwards every input has fired; an input's canceller
+    is called exactly when the input has not fired yet (an already fired input is left alone).
+    (For gatherResults the same lemmas apply with the flags (false, true); for race: not proved.) *)
+Theorem dl_cancel_aggregate_fires_every_input : forall f1 f2 ce s, agg s = None ->
+  forall i, i < n_of s -> res (get i (step (KList f1 f2 ce) s CancelAgg)) <> None.
+Proof. exact fact_cancel_fires_all. Qed.
+Print Assumptions dl_cancel_aggregate_fires_every_input.
+
+Theorem dl_canceller_called_iff_input_pending : forall f1 f2 ce s i,
+  (res (get i s) = None ->
+   exists l, log (cancel_input (dl_cb f1 f2 ce) i s) = l ++ ECancel i :: log s) /\
+  (res (get i s) <> None -> cancel_input (dl_cb f1 f2 ce) i s = s).
+Proof. exact cancel_input_log. Qed.
+Print Assumptions dl_canceller_called_iff_input_pending.
+
 (** a non-trivial schedule: three inputs, the middle one fired before construction, fired in the order 2, 0 *)
 Example nontrivial_schedule :
   let s := run (KList false false true) [(CNothing, None); (CNothing, Some (Fail (EUser 1))); (CNothing, None)]
